@@ -26,6 +26,12 @@ LEVEL_TEXT = ("Symbolic execution of the real PubKeyNode.ckd and PrvKeyNode.ckd 
 LEVEL_NOTE = "Trusted: z3, the group model of ecdsa (points as discrete logs, SEC as uninterpreted bijection)."
 
 
+# a counterexample may hinge on a property of a point the group model abstracts (an x coordinate with a leading zero byte,
+# a particular parity): the replay then searches concrete keys / indexes at random for a bounded time
+RANDOM_REPLAY = {"inputs": {"k": 32, "c": 32}, "always": True, "seconds": 60,
+                 "ints": {"index": (0, 2 ** 31 - 1), "i0": (0, 2 ** 31 - 1), "i1": (0, 2 ** 31 - 1), "i2": (0, 2 ** 31 - 1)}}
+
+
 def setup_sym(R):
     cm.setup_bip32_sym(R)
 
@@ -94,8 +100,15 @@ def chain(E, R, L, testnet, hard_at):
     return "ok"
 
 
+def children(E, R):
+    from props import C13
+    return C13.children_real(E, R, True)
+
+
 def cases(tier):
-    cs = []
+    cs = [Case("children", "children", weight=20, max_paths=5000,
+               need=("bulk generation on a public node refuses an interval reaching hardened indexes",
+                     "bulk-generated child equals the single-step derivation of its index"))]
     for t in (False, True):
         cs.append(Case("step[testnet=%s]" % t, "step", dict(testnet=t),
                        need=("public child key == SEC((IL + k)*G) == private child's public key",
